@@ -14,7 +14,7 @@ import re
 
 MARK_RE = re.compile(r'Wq\d+x')
 
-SEC_NAMES = {-1: 'part', 0: 'chapter', 1: 'section', 2: 'subsection', 3: 'subsubsection', 4: 'paragraph', 5: 'subparagraph'}
+SEC_NAMES = {-1: 'part', 0: 'chapter', 1: 'section', 2: 'subsection', 3: 'subsubsection', 4: 'paragraph', 5: 'subparagraph', 6: 'subsubparagraph'}
 FONT_CMDS = ['textbf', 'emph', 'textit', 'texttt', 'textsc', 'underline']
 FONT_DECLS = ['bfseries', 'itshape', 'ttfamily', 'em', 'small', 'large']
 THEOREMS = ['zqthm', 'zqlem', 'zqdef']       # declared in the preamble of documents that use them
@@ -39,6 +39,7 @@ class G(object):
         self.pending_refs = []
         self.cls = self.o['cls'] or r.choice(['article', 'article', 'book'])
         self.used_theorems = set()
+        self.user_counters = False
         self.nsec = 0
 
     # -- leaves --------------------------------------------------------------
@@ -217,6 +218,9 @@ class G(object):
                 j = r.randrange(i, len(starts))
                 row['cline'] = [starts[i][0], starts[j][1]]
             rows.append(row)
+            if self.o.get('blank_rows') and r.random() < self.o['blank_rows']:
+                # a row without any text or rule (plasTeX drops such rows by design; "r non-empty rows yield r rows")
+                rows.append({'cells': [], 'blank': r.choice(['\\\\', 'cells']), 'hline': False, 'cline': None})
         node = {'t': 'tabular', 'aligns': aligns, 'bars': bars, 'rows': rows, 'hline_end': r.random() < 0.3}
         if rich:
             node['at'] = [r.random() < 0.2 for _ in range(ncol + 1)]
@@ -271,11 +275,13 @@ class G(object):
 
     def counter_op(self):
         r = self.r
-        names = ['section', 'subsection', 'equation', 'figure', 'table', 'zqthm', 'footnote']
+        names = ['section', 'subsection', 'equation', 'figure', 'table', 'zqthm', 'footnote', 'zqu', 'zqw', 'zqu']
         if self.cls == 'book':
             names.append('chapter')
         name = r.choice(names)
-        if name.startswith('zq'):
+        if name in ('zqu', 'zqw'):
+            self.user_counters = True      # \newcounter{zqu}[section], \newcounter{zqw}[zqu]: a chain of user counters
+        elif name.startswith('zq'):
             self.used_theorems.add(name)
         op = r.choice(['setcounter', 'addtocounter', 'stepcounter'])
         return {'t': 'counter', 'op': op, 'name': name, 'value': r.choice([0, 1, 2, 5, 10]) if op == 'setcounter' else r.choice([1, 2, 3])}
@@ -292,14 +298,15 @@ class G(object):
             if o.get('late_labels') and r.random() < o['late_labels'] and node['c'] and node['c'][0]['t'] == 'para' and not node['star']:
                 # the label stands after the first paragraph of the unit (with its footnotes, boxes, formulas) instead of directly after the command
                 node['late_label'] = True
-        if level < 4 and self.nsec < o['maxsec']:
+        # down to \subparagraph; with the option deep6 also plasTeX's own seventh level, \subsubparagraph (no LaTeX numbering rule exists for it)
+        if level < (6 if o.get('deep6') else 5) and self.nsec < o['maxsec']:
             have_direct = False
             for _ in range(r.choice([0, 0, 1, 2, 3])):
                 if self.nsec >= o['maxsec']:
                     break
                 # a unit that skips a level can only come before the first unit of the next level
                 # (after it, LaTeX nests the deeper unit inside that sibling)
-                sub = level + 1 if (have_direct or r.random() < 0.9 or level >= 3) else level + 2
+                sub = level + 1 if (have_direct or r.random() < 0.9 or level >= 4) else level + 2
                 if sub == level + 1:
                     have_direct = True
                 node['subs'].append(self.section(sub, depth))
@@ -323,6 +330,7 @@ class G(object):
                 body['secs'].append(self.section(top, o['depth']))
         self.bind_refs(body)
         body['theorems'] = sorted(self.used_theorems)
+        body['user_counters'] = self.user_counters
         body['labels'] = list(self.labels)
         return body
 
@@ -477,10 +485,11 @@ def p_blocks(blocks, ind=''):
             s += '\n' + p_blocks(b['c']) + '\\end{%s}\n' % b['env']
             out.append(s)
         elif t == 'counter':
+            probe = ' Zu\\arabic{zqu}v\\arabic{zqw}w' if b['name'] in ('zqu', 'zqw') else ''      # the user counters are printed after each operation on them
             if b['op'] == 'stepcounter':
-                out.append('\\stepcounter{%s}\n' % b['name'])
+                out.append('\\stepcounter{%s}%s\n' % (b['name'], probe))
             else:
-                out.append('\\%s{%s}{%d}\n' % (b['op'], b['name'], b['value']))
+                out.append('\\%s{%s}{%d}%s\n' % (b['op'], b['name'], b['value'], probe))
         elif t == 'raw':
             out.append(b['src'] + '\n')
     return SEP[0].join(out)
@@ -541,6 +550,9 @@ def p_tabular(b):
             s += '\\hline\n'
         elif row.get('cline'):
             s += '\\cline{%d-%d}\n' % tuple(row['cline'])
+        if row.get('blank'):
+            s += (' \\\\\n' if row['blank'] != 'cells' else ' & ' * (len(b['aligns']) - 1) + ' \\\\\n')
+            continue
         s += ' & '.join(p_cell(c) for c in row['cells']) + ' \\\\\n'
     if b['hline_end']:
         s += '\\hline\n'
@@ -570,6 +582,8 @@ def preamble(doc, extra=''):
         s += '\\newtheorem{zqlem}[zqthm]{Lemma}\n'
     if 'zqdef' in th:
         s += '\\newtheorem{zqdef}{Definition}[section]\n'
+    if doc.get('user_counters'):
+        s += '\\newcounter{zqu}[section]\\newcounter{zqw}[zqu]\n'
     return s + extra
 
 
